@@ -37,6 +37,18 @@ let parse_hits s : (int * int) list =
       | [p; b] -> (int_of_string p, int_of_string b)
       | _ -> failwith ("bad hit " ^ h)) (split ',' s)
 
+(* consumed hits of the c03 observations: "pos:bits+pos:bits" (older corpus observations: "pos+pos") *)
+let parse_consumed s : (int * int option) list =
+  List.map (fun h -> match String.split_on_char ':' h with
+      | [p; b] -> (int_of_string p, Some (int_of_string b))
+      | [p] -> (int_of_string p, None)
+      | _ -> failwith ("bad consumed hit " ^ h)) (split '+' s)
+
+(* model hits against the consumed hits: positions, and score bits where the harness printed them *)
+let same_consumed (mh : (int * int) list) (c : (int * int option) list) =
+  List.length mh = List.length c &&
+  List.for_all2 (fun (p, b) (q, ob) -> p = q && (match ob with Some x -> x = b | None -> true)) mh c
+
 let show_hit (p, b) = Printf.sprintf "%d:%d" p b
 let zhit (p, b) = (z_of_int p, z_of_int b)
 
@@ -44,6 +56,18 @@ let model_hits (l : fhit list) : (int * int) list =
   List.map (fun (p, s) -> (int_of_nat p, int_bits_of_f32 s)) l
 
 let rec take n l = if n <= 0 then [] else match l with [] -> [] | x :: r -> x :: take (n - 1) r
+
+(* decimal string -> N (block sizes up to usize::MAX do not fit OCaml's int) *)
+let n_of_string (x : string) =
+  n_of_digits (List.init (String.length x) (fun i ->
+      let c = Char.code x.[i] - 48 in
+      if c < 0 || c > 9 then failwith ("bad number " ^ x) else nat_of_int c))
+let big_number (x : string) = String.length x > 7
+
+let rec is_prefix a b = match a, b with
+  | [], _ -> true
+  | x :: a', y :: b' -> x = y && is_prefix a' b'
+  | _ :: _, [] -> false
 
 let arm_of = function 'g' -> Generic | 's' -> Sse2 | 'a' -> Avx2 | c -> failwith (Printf.sprintf "bad arm %c" c)
 
@@ -69,6 +93,8 @@ let () =
         let verdict = ref "OK" in
         (* PROPFAIL takes precedence over DIFF; first of each kind is kept *)
         let set_v v =
+          (* SCAN_DRIVER_ALL=1: every verdict on stderr (a DIFF behind a PROPFAIL is otherwise not shown) *)
+          if Sys.getenv_opt "SCAN_DRIVER_ALL" = Some "1" then prerr_endline ("# " ^ id ^ " " ^ v);
           if !verdict = "OK" then verdict := v
           else if String.length !verdict >= 4 && String.sub !verdict 0 4 = "DIFF"
                   && String.length v >= 8 && String.sub v 0 8 = "PROPFAIL" then verdict := v in
@@ -85,7 +111,11 @@ let () =
              Scanner::new as read from scan.rs on this run (GenScan.v) *)
           let thr_bits = (match get "thr" with "d" -> int_of_z gen_default_threshold_bits | s -> int_of_string s) in
           let thr = f32_of_int_bits thr_bits in
-          let b = (match get "B" with "d" -> int_of_nat gen_default_block_size | s -> int_of_string s) in
+          let b_str = (match get "B" with "d" -> string_of_int (int_of_nat gen_default_block_size) | s -> s) in
+          (* the nat-level model is unary: an initial block size above 10^7 is only supported for the
+             new block size of `sw=` (word-level model, ScanWord.v) *)
+          let b_big = big_number b_str in
+          let b_n = n_of_string b_str in
           let ks = List.map int_of_string (split ',' (get "ks")) in
           (* setters called after k calls of next(): (k, thr2 bits, B2), `=` = setter not called *)
           let sw = (match List.assoc_opt "sw" fields with
@@ -93,14 +123,18 @@ let () =
               | Some x -> (match String.split_on_char ':' x with
                   | [k; t; bb] -> Some (int_of_string k,
                                         (if t = "=" then thr_bits else int_of_string t),
-                                        (if bb = "=" then b else int_of_string bb))
+                                        (if bb = "=" then b_str else bb))
                   | _ -> failwith ("bad sw " ^ x))) in
-          let configured = m >= 1 && wrap >= m - 1 && b >= 1 in
-          let nan_cell = List.exists (fun r -> List.exists is_nan_bits (take 4 r)) pssm_bits in
-          let pre = configured && not nan_cell in
+          (* the inputs on which a panic is a property failure: extracted predicate (ScanCheck2.pre_ok,
+             C02_pre_ok_spec) *)
+          let pre = pre_ok (nat_of_int 5) (nat_of_int m) (nat_of_int wrap) (n_pos b_n)
+              (List.map (List.map z_of_int) pssm_bits) in
           let otoks = String.split_on_char ' ' obs in
           let sections = split_arms otoks in
           let common = (match sections with (None, c) :: _ -> List.map kv c | _ -> []) in
+          (* overflow behaviour of `usize + usize` in the build profile of the harness *)
+          (* ... unless scan.rs adds with saturating_add (read from the source on this run: GenScan.gen_row_add_saturating) *)
+          let mo = gen_ovf (match List.assoc_opt "ovf" common with Some "w" -> false | _ -> true) in
           let sc_s = (try List.assoc "sc" common with Not_found -> "P") in
           let env = c_env (nat_of_int 5) (nat_of_int 32) pssm sq (nat_of_int wrap) in
           (* ---- per-position scores: implementation's own numbers, and the model's ---- *)
@@ -121,7 +155,17 @@ let () =
            | _, _ -> ());
           let zscores = (match impl_scores with Some sc -> List.map z_of_int sc | None -> []) in
           let zthr = z_of_int thr_bits in
-          let bn = nat_of_int b in
+          (* unary block size of the nat-level model; block sizes above 10^7 (b_big) go through the word-level
+             model instead (ScanWord.v; equal to the nat-level one for a block size set before the first call,
+             C02_word_scanner_eq) *)
+          let bn = if b_big then O else nat_of_int (int_of_string b_str) in
+          let unpanic f = function Ok x -> Ok (f x) | Panic s -> Panic s | Err c -> Err c | OutOfFuel -> OutOfFuel in
+          let m_collect v am =
+            if b_big then unpanic snd (ce_wswitch_collect mo v am thr b_n O thr b_n) else ce_collect v am thr bn in
+          let m_take v am k =
+            if b_big then ce_wtake mo v am thr b_n k else ce_take v am thr bn k in
+          let m_take_max v am k =
+            if b_big then ce_wswitch_max mo v am thr b_n k thr b_n else ce_take_max v am thr bn k in
           (* diagnostic for a lost hit: was it the 8-bit pre-filter (C08) ? *)
           let prefilter_note p =
             (match env with
@@ -162,7 +206,9 @@ let () =
                       let hits = parse_hits (fget "hits") in
                       let e = fget "end" in
                       (* --- property --- *)
-                      if e = "X" then set_v ("PROPFAIL " ^ tag ^ " more-hits-than-cells")
+                      if e = "X" && (impl_scores = None || check_c02 zscores zthr (List.map zhit hits)) then
+                        (* the harness stops after rows*C+4 hits: the checker necessarily rejects such a list *)
+                        set_v ("DIFF " ^ tag ^ " more-hits-than-cells-but-checker-passes")
                       else if e = "P" then (if pre then set_v (Printf.sprintf "PROPFAIL %s panic-after-%d-hits" tag (List.length hits)))
                       else if impl_scores <> None then begin
                         let zh = List.map zhit hits in
@@ -174,7 +220,7 @@ let () =
                                  (match first_spurious zscores zthr zh with
                                   | Some (p, s) -> Printf.sprintf "spurious pos=%d bits=%d" (int_of_z p) (int_of_z s)
                                   | None -> "duplicate-hit")) in
-                          set_v (Printf.sprintf "PROPFAIL %s %s" tag d)
+                          set_v (Printf.sprintf "PROPFAIL %s %s%s" tag d (if e = "X" then " more-hits-than-cells" else ""))
                         end
                       end;
                       (* take(k): k distinct qualifying positions with exact scores (or all of them) *)
@@ -186,20 +232,24 @@ let () =
                           if r = "P" then (if pre then set_v (Printf.sprintf "PROPFAIL %s take(%d)-panicked" tag k))
                           else if impl_scores <> None then begin
                             let zh = List.map zhit h in
-                            let sorted = List.sort_uniq compare (List.map fst h) in
-                            if List.length h <> min k nq then
-                              set_v (Printf.sprintf "PROPFAIL %s take(%d)-length=%d expected=%d" tag k (List.length h) (min k nq))
-                            else if List.length sorted <> List.length h then
-                              set_v (Printf.sprintf "PROPFAIL %s take(%d)-duplicate" tag k)
-                            else (match first_spurious zscores zthr zh with
-                                | Some (p, _) -> set_v (Printf.sprintf "PROPFAIL %s take(%d)-spurious pos=%d" tag k (int_of_z p))
-                                | None -> ())
+                            (* decided by the extracted checker (C02_check_take_sound / _complete); the rest
+                               only words the detail *)
+                            if not (check_take zscores zthr (nat_of_int k) zh) then begin
+                              let sorted = List.sort_uniq compare (List.map fst h) in
+                              if List.length h <> min k nq then
+                                set_v (Printf.sprintf "PROPFAIL %s take(%d)-length=%d expected=%d" tag k (List.length h) (min k nq))
+                              else if List.length sorted <> List.length h then
+                                set_v (Printf.sprintf "PROPFAIL %s take(%d)-duplicate" tag k)
+                              else (match first_spurious zscores zthr zh with
+                                  | Some (p, _) -> set_v (Printf.sprintf "PROPFAIL %s take(%d)-spurious pos=%d" tag k (int_of_z p))
+                                  | None -> set_v (Printf.sprintf "PROPFAIL %s take(%d)-rejected" tag k))
+                            end
                           end) takes;
                       (* --- model --- *)
                       (match env with
                        | Ok v ->
                            let n = List.length hits in
-                           (match ce_collect v am thr bn with
+                           (match m_collect v am with
                             | Ok mh ->
                                 let mh = model_hits mh in
                                 if e = "P" then set_v (Printf.sprintf "DIFF %s impl-panics model-yields-%d" tag (List.length mh))
@@ -212,7 +262,7 @@ let () =
                                 end;
                                 List.iter (fun (k, h, r) ->
                                     if r = "N" && h <> take k mh then set_v (Printf.sprintf "DIFF %s take(%d)" tag k)) takes;
-                                if with_skel then begin
+                                if with_skel && not b_big then begin
                                   (match ce_pcollect v am thr bn with
                                    | Ok ph -> if e <> "P" && model_hits ph <> hits then set_v (Printf.sprintf "DIFF %s source-skeleton-model hits" tag)
                                    | _ -> set_v (Printf.sprintf "DIFF %s source-skeleton-model fails" tag));
@@ -224,24 +274,38 @@ let () =
                                 end
                             | Panic site ->
                                 if e <> "P" then set_v (Printf.sprintf "DIFF %s model-panics-site-%d impl-yields-%d" tag (int_of_nat site) n)
-                                else (match ce_take v am thr bn (nat_of_int n) with
+                                else (match m_take v am (nat_of_int n) with
                                     | Ok mh -> if model_hits mh <> hits then set_v (Printf.sprintf "DIFF %s hits-before-panic" tag)
                                     | _ -> set_v (Printf.sprintf "DIFF %s model-panics-earlier" tag))
                             | _ -> set_v (Printf.sprintf "DIFF %s model-out-of-fuel" tag))
                        | _ -> ());
                       (* --- setters changed between calls --- *)
                       (match sw with
-                       | Some (k, t2bits, b2) when has "sw" ->
+                       | Some (k, t2bits, b2s) when has "sw" ->
                            let before, after, e2 = (match String.split_on_char '/' (fget "sw") with
                                | [x; y; z] -> (parse_hits x, parse_hits y, z)
                                | _ -> failwith "bad sw observation") in
-                           let pre2 = pre && b2 >= 1 in
+                           let b2big = big_number b2s in
+                           let b2n = n_of_string b2s in
+                           let pre2 = pre && n_pos b2n in
+                           let wmodel m = (match env with
+                               | Ok v -> Some (ce_wswitch_collect m v am thr b_n (nat_of_int k) (f32_of_int_bits t2bits) b2n)
+                               | _ -> None) in
+                           (* the class of known finding F-scan-ovf: `self.row + self.block_size` reaches 2^64
+                              (the word-level model with overflow checks panics at site 40) *)
+                           let ovf_note = if b2big then (match wmodel Checked with
+                               | Some (Panic site) when int_of_nat site = 40 -> " usize-overflow(row+block_size)"
+                               | _ -> "") else "" in
+                           let set_v x = set_v (if String.length x >= 8 && String.sub x 0 8 = "PROPFAIL" then x ^ ovf_note else x) in
                            if e2 = "P" then (if pre2 then set_v (Printf.sprintf "PROPFAIL %s sw-panicked-after-%d-hits" tag (List.length before + List.length after)))
                            else if e2 = "X" then set_v (Printf.sprintf "PROPFAIL %s sw-more-hits-than-cells" tag)
-                           else if impl_scores <> None then begin
-                             (* weak property: distinct positions with exact scores; the hits of the first k calls meet
-                                thr, the later ones thr or thr2; every position meeting both thresholds is yielded *)
+                           else if impl_scores <> None
+                                   && not (check_sw zscores zthr (z_of_int t2bits) (List.map zhit before) (List.map zhit after)) then begin
+                             (* weak property, decided by the extracted check_sw (C02_check_sw_sound): distinct positions
+                                with exact scores; the hits of the first k calls meet thr, the later ones thr or thr2; every
+                                position meeting both thresholds is yielded.  The rest only words the detail. *)
                              let sc = Array.of_list (match impl_scores with Some l -> l | None -> []) in
+                             let before_v = !verdict in
                              let all = before @ after in
                              let ge a bb = bits_ge (z_of_int a) (z_of_int bb) in
                              let exact (p, x) = p >= 0 && p < Array.length sc && sc.(p) = x in
@@ -253,25 +317,46 @@ let () =
                              else
                                Array.iteri (fun p x ->
                                    if ge x thr_bits && ge x t2bits && not (List.mem_assoc p all) then
-                                     set_v (Printf.sprintf "PROPFAIL %s sw-missing pos=%d%s" tag p (prefilter_note p))) sc
+                                     set_v (Printf.sprintf "PROPFAIL %s sw-missing pos=%d%s" tag p (prefilter_note p))) sc;
+                             if !verdict == before_v then set_v (Printf.sprintf "PROPFAIL %s sw-rejected" tag)
                            end;
                            (match env with
                             | Ok v ->
-                                (match ce_switch_collect v am thr bn (nat_of_int k) (f32_of_int_bits t2bits) (nat_of_int b2) with
-                                 | Ok (mb, ma) ->
-                                     if e2 = "P" then set_v (Printf.sprintf "DIFF %s sw impl-panics" tag)
-                                     else if model_hits mb <> before then set_v (Printf.sprintf "DIFF %s sw hits-before" tag)
-                                     else if model_hits ma <> after then set_v (Printf.sprintf "DIFF %s sw hits-after" tag)
-                                 | Panic _ -> if e2 <> "P" then set_v (Printf.sprintf "DIFF %s sw model-panics" tag)
-                                 | _ -> if b2 >= 1 then set_v (Printf.sprintf "DIFF %s sw model-out-of-fuel" tag))
+                                let cmp name res =
+                                  (match res with
+                                   | Ok (mb, ma) ->
+                                       if e2 = "P" then set_v (Printf.sprintf "DIFF %s sw%s impl-panics" tag name)
+                                       else if model_hits mb <> before then set_v (Printf.sprintf "DIFF %s sw%s hits-before" tag name)
+                                       else if model_hits ma <> after && e2 <> "X" then set_v (Printf.sprintf "DIFF %s sw%s hits-after" tag name)
+                                       else if e2 = "X" && not (is_prefix after (model_hits ma)) then set_v (Printf.sprintf "DIFF %s sw%s hits-after" tag name)
+                                   | Panic site ->
+                                       if e2 <> "P" then set_v (Printf.sprintf "DIFF %s sw%s model-panics" tag name)
+                                       else if int_of_nat site = 40 then
+                                         (* overflow panic.  A step under the new block size that does not overflow ends the
+                                            loop for good (row + B' >= B' > R), so the panic can only come at the first loop
+                                            entry after the setters: the hits yielded before it are the k hits and the hits
+                                            that were buffered, i.e. what take(|before| + |after|) yields under the OLD block size *)
+                                         (match ce_wtake mo v am thr b_n (nat_of_int (List.length before + List.length after)) with
+                                          | Ok mh ->
+                                              if model_hits mh <> before @ after then
+                                                set_v (Printf.sprintf "DIFF %s sw%s hits-before-overflow-panic" tag name)
+                                          | _ -> set_v (Printf.sprintf "DIFF %s sw%s take-model-fails-before-overflow-panic" tag name))
+                                   | _ -> if n_pos b2n then set_v (Printf.sprintf "DIFF %s sw%s model-out-of-fuel" tag name)) in
+                                if b2big || b_big then cmp "-word" (ce_wswitch_collect mo v am thr b_n (nat_of_int k) (f32_of_int_bits t2bits) b2n)
+                                else begin
+                                  cmp "" (ce_switch_collect v am thr bn (nat_of_int k) (f32_of_int_bits t2bits) (nat_of_int (int_of_string b2s)));
+                                  if with_skel then
+                                    cmp "-word" (ce_wswitch_collect mo v am thr b_n (nat_of_int k) (f32_of_int_bits t2bits) b2n)
+                                end
                             | _ -> ())
                        | _ -> ())
                     end else begin
                       (* c03 *)
                       let items = List.map (fun t -> match String.split_on_char '/' t with
-                          | [k; c; r] -> (int_of_string k, List.map int_of_string (split '+' c), r)
+                          | [k; c; r] -> (int_of_string k, parse_consumed c, r)
                           | _ -> failwith ("bad max item " ^ t)) (split ';' (fget "max")) in
-                      List.iter (fun (k, consumed, r) ->
+                      List.iter (fun (k, consumed_h, r) ->
+                          let consumed = List.map fst consumed_h in
                           let result = (match r with
                               | "N" -> `None | "P" -> `Panic
                               | s -> (match String.split_on_char ':' s with
@@ -298,9 +383,9 @@ let () =
                           (* --- model --- *)
                           (match env with
                            | Ok v ->
-                               (match ce_take_max v am thr bn (nat_of_int k) with
+                               (match m_take_max v am (nat_of_int k) with
                                 | Ok (mh, mx) ->
-                                    if List.map fst (model_hits mh) <> consumed && result <> `Panic then
+                                    if not (same_consumed (model_hits mh) consumed_h) && result <> `Panic then
                                       set_v (Printf.sprintf "DIFF %s k=%d consumed-prefix" tag k);
                                     (match mx, result with
                                      | Ok None, `None -> ()
@@ -314,10 +399,10 @@ let () =
                                      | _, _ -> set_v (Printf.sprintf "DIFF %s k=%d model-out-of-fuel" tag k))
                                 | Panic _ -> if result <> `Panic then set_v (Printf.sprintf "DIFF %s k=%d model-panics-in-prefix" tag k)
                                 | _ -> set_v (Printf.sprintf "DIFF %s k=%d model-out-of-fuel" tag k));
-                               if with_skel && result <> `Panic then
+                               if with_skel && not b_big && result <> `Panic then
                                  (match ce_ptake_max v am thr bn (nat_of_int k) with
                                   | Ok (ph, px) ->
-                                      if List.map fst (model_hits ph) <> consumed then
+                                      if not (same_consumed (model_hits ph) consumed_h) then
                                         set_v (Printf.sprintf "DIFF %s k=%d source-skeleton-model consumed-prefix" tag k);
                                       (match px, result with
                                        | Ok None, `None -> ()
@@ -327,13 +412,51 @@ let () =
                                        | _, _ -> set_v (Printf.sprintf "DIFF %s k=%d source-skeleton-model max impl=%s" tag k r))
                                   | _ -> set_v (Printf.sprintf "DIFF %s k=%d source-skeleton-model fails" tag k))
                            | _ -> ())) items;
+                      (* --- block-size independence: max() of a fresh scanner under B and under another block size --- *)
+                      if has "maxb" then begin
+                        (match String.split_on_char '/' (fget "maxb") with
+                         | [alt; ra; rb] ->
+                             let parse r = (match r with
+                                 | "N" -> `None | "P" -> `Panic
+                                 | x -> (match String.split_on_char ':' x with
+                                     | [p; bb] -> `Some (int_of_string p, int_of_string bb)
+                                     | _ -> failwith ("bad maxb result " ^ x))) in
+                             let za = parse ra and zb = parse rb in
+                             let zo = function `Some h -> Some (zhit h) | _ -> None in
+                             if za = `Panic || zb = `Panic then
+                               (if pre then set_v (Printf.sprintf "PROPFAIL %s maxb-panicked" tag))
+                             else if not (same_answer (zo za) (zo zb)) then
+                               set_v (Printf.sprintf "PROPFAIL %s max-depends-on-block-size B=%s:%s B=%s:%s wc=%b" tag b_str rb alt ra
+                                        (match env with Ok v -> ce_wc (nat_of_int 5) v | _ -> false));
+                             (* the model under the other block size, on the arm that also replays the skeleton *)
+                             if with_skel && za <> `Panic then
+                               (match env with
+                                | Ok v ->
+                                    (match ce_max_after v am thr (nat_of_int (int_of_string alt)) O, za with
+                                     | Ok None, `None -> ()
+                                     | Ok (Some (p, x)), `Some (ip, ib) ->
+                                         if int_of_nat p <> ip || int_bits_of_f32 x <> ib then set_v (Printf.sprintf "DIFF %s maxb model=%d:%d impl=%s" tag (int_of_nat p) (int_bits_of_f32 x) ra)
+                                     | _, _ -> set_v (Printf.sprintf "DIFF %s maxb model-differs impl=%s" tag ra))
+                                | _ -> ())
+                         | _ -> failwith "bad maxb observation")
+                      end;
                       (* --- setters changed between the k calls of next() and max() --- *)
                       (match sw with
-                       | Some (k, t2bits, b2) when has "swmax" ->
-                           let consumed, r = (match String.split_on_char '/' (fget "swmax") with
-                               | [c; r] -> (List.map int_of_string (split '+' c), r)
+                       | Some (k, t2bits, b2s) when has "swmax" ->
+                           let consumed_h, r = (match String.split_on_char '/' (fget "swmax") with
+                               | [c; r] -> (parse_consumed c, r)
                                | _ -> failwith "bad swmax observation") in
-                           let pre2 = pre && b2 >= 1 in
+                           let consumed = List.map fst consumed_h in
+                           let b2big = big_number b2s in
+                           let b2n = n_of_string b2s in
+                           let pre2 = pre && n_pos b2n in
+                           let wmodel m = (match env with
+                               | Ok v -> Some (ce_wswitch_max m v am thr b_n (nat_of_int k) (f32_of_int_bits t2bits) b2n)
+                               | _ -> None) in
+                           let ovf_note = if b2big then (match wmodel Checked with
+                               | Some (Ok (_, Panic site)) when int_of_nat site = 40 -> " usize-overflow(row+block_size)"
+                               | _ -> "") else "" in
+                           let set_v x = set_v (if String.length x >= 8 && String.sub x 0 8 = "PROPFAIL" then x ^ ovf_note else x) in
                            let result = (match r with
                                | "N" -> `None | "P" -> `Panic
                                | x -> (match String.split_on_char ':' x with
@@ -342,11 +465,15 @@ let () =
                            (match result with
                             | `Panic -> if pre2 then set_v (Printf.sprintf "PROPFAIL %s swmax-panicked" tag)
                             | _ when impl_scores = None -> ()
+                            | _ when check_swmax zscores zthr (z_of_int t2bits) (List.map z_of_int consumed)
+                                       (match result with `Some h -> Some (zhit h) | _ -> None) -> ()
                             | _ ->
-                                (* weak property: the answer is an unconsumed position with its exact score meeting thr2
-                                   and dominating every unconsumed position that meets both thresholds; None only if
-                                   there is no such position *)
+                                (* weak property, decided by the extracted check_swmax (C03_check_swmax_sound): the answer is
+                                   an unconsumed position with its exact score meeting thr2 and dominating every unconsumed
+                                   position that meets both thresholds; None only if there is no such position.  The rest
+                                   only words the detail. *)
                                 let sc = Array.of_list (match impl_scores with Some l -> l | None -> []) in
+                                let before_v = !verdict in
                                 let ge a bb = bits_ge (z_of_int a) (z_of_int bb) in
                                 let strong = ref [] in
                                 Array.iteri (fun p x -> if ge x thr_bits && ge x t2bits && not (List.mem p consumed) then strong := (p, x) :: !strong) sc;
@@ -360,23 +487,31 @@ let () =
                                      else if not (ge x t2bits) then set_v (Printf.sprintf "PROPFAIL %s swmax-below-thr2" tag)
                                      else List.iter (fun (q, y) -> if not (ge x y) then
                                                         set_v (Printf.sprintf "PROPFAIL %s swmax=%d:%d better-unconsumed=%d:%d" tag p x q y)) !strong
-                                 | _ -> ()));
+                                 | _ -> ());
+                                if !verdict == before_v then set_v (Printf.sprintf "PROPFAIL %s swmax-rejected" tag));
                            (match env with
                             | Ok v ->
-                                (match ce_switch_max v am thr bn (nat_of_int k) (f32_of_int_bits t2bits) (nat_of_int b2) with
-                                 | Ok (mh, mx) ->
-                                     if List.map fst (model_hits mh) <> consumed && result <> `Panic then
-                                       set_v (Printf.sprintf "DIFF %s swmax consumed-prefix" tag);
-                                     (match mx, result with
-                                      | Ok None, `None -> ()
-                                      | Ok (Some (p, x)), `Some (ip, ib) ->
-                                          if int_of_nat p <> ip || int_bits_of_f32 x <> ib then
-                                            set_v (Printf.sprintf "DIFF %s swmax impl=%d:%d model=%d:%d" tag ip ib (int_of_nat p) (int_bits_of_f32 x))
-                                      | Panic _, `Panic -> ()
-                                      | OutOfFuel, _ -> if b2 >= 1 then set_v (Printf.sprintf "DIFF %s swmax model-out-of-fuel" tag)
-                                      | _, _ -> set_v (Printf.sprintf "DIFF %s swmax impl=%s model-differs" tag r))
-                                 | Panic _ -> if result <> `Panic then set_v (Printf.sprintf "DIFF %s swmax model-panics-in-prefix" tag)
-                                 | _ -> set_v (Printf.sprintf "DIFF %s swmax model-out-of-fuel" tag))
+                                let cmp name res =
+                                  (match res with
+                                   | Ok (mh, mx) ->
+                                       if not (same_consumed (model_hits mh) consumed_h) && result <> `Panic then
+                                         set_v (Printf.sprintf "DIFF %s swmax%s consumed-prefix" tag name);
+                                       (match mx, result with
+                                        | Ok None, `None -> ()
+                                        | Ok (Some (p, x)), `Some (ip, ib) ->
+                                            if int_of_nat p <> ip || int_bits_of_f32 x <> ib then
+                                              set_v (Printf.sprintf "DIFF %s swmax%s impl=%d:%d model=%d:%d" tag name ip ib (int_of_nat p) (int_bits_of_f32 x))
+                                        | Panic _, `Panic -> ()
+                                        | OutOfFuel, _ -> if n_pos b2n then set_v (Printf.sprintf "DIFF %s swmax%s model-out-of-fuel" tag name)
+                                        | _, _ -> set_v (Printf.sprintf "DIFF %s swmax%s impl=%s model-differs" tag name r))
+                                   | Panic _ -> if result <> `Panic then set_v (Printf.sprintf "DIFF %s swmax%s model-panics-in-prefix" tag name)
+                                   | _ -> set_v (Printf.sprintf "DIFF %s swmax%s model-out-of-fuel" tag name)) in
+                                if b2big || b_big then cmp "-word" (ce_wswitch_max mo v am thr b_n (nat_of_int k) (f32_of_int_bits t2bits) b2n)
+                                else begin
+                                  cmp "" (ce_switch_max v am thr bn (nat_of_int k) (f32_of_int_bits t2bits) (nat_of_int (int_of_string b2s)));
+                                  if with_skel then
+                                    cmp "-word" (ce_wswitch_max mo v am thr b_n (nat_of_int k) (f32_of_int_bits t2bits) b2n)
+                                end
                             | _ -> ())
                        | _ -> ())
                     end
